@@ -11,7 +11,7 @@ RULES = ['zwnj', 'zwj', 'middledot', 'keraia', 'hebrew', 'katakana', 'arabic', '
 def correspondence(ctx):
     corr = Corr()
     rle_check(ctx, corr, ['cls_id', 'cls_ff', 'cls_id_char', 'cls_ff_char'])
-    alpha = [0x61, 0xE9, 0x65E5, 0x20000, 0x20, 0xA0, 0x3000, 0x200D, 0x200C, 0x41, 0xFF21, 0x5D0]
+    alpha = xa(ctx, [0x61, 0xE9, 0x65E5, 0x20000, 0x20, 0xA0, 0x3000, 0x200D, 0x200C, 0x41, 0xFF21, 0x5D0], 4)
     maxlen = 3 if ctx.tier == 'quick' else 5
     cases = []
     for s in all_strings(alpha, maxlen, 0):
